@@ -1,5 +1,5 @@
 (* Codec: the obligations that are re-evaluated on the freshly translated programs. *)
-From NV Require Import Lib.Base Codec.Lang Codec.Def Codec.Sem Codec.Total Codec.Dispatch Codec.DispatchProofs
+From NV Require Import Lib.Base Codec.Lang Codec.Def Codec.Sem Codec.Total Codec.Dispatch Codec.DispatchProofs Codec.WF Codec.RoundTrip
   Gen.GenMsgs Gen.GenTypes Gen.GenDispatch.
 From Coq Require Import String.
 Open Scope N_scope.
@@ -66,3 +66,17 @@ Proof.
   destruct (b =? epd_gmm); [apply part_decode_total; exact Hb|].
   destruct (b =? epd_gsm); [apply part_decode_total; exact Hb|exact I].
 Qed.
+
+Lemma all_rt : forallb (fun p => rt_defb (snd p)) defs = true.
+Proof. vm_compute. reflexivity. Qed.
+
+Lemma def_rt n d : find_def n = Some d -> rt_defb d = true.
+Proof.
+  unfold find_def. intro H. destruct (find _ defs) as [p|] eqn:E; inversion H; subst.
+  apply find_some in E as [Hin _].
+  pose proof all_rt as W. rewrite forallb_forall in W. exact (W p Hin).
+Qed.
+
+Lemma message_roundtrip n d m : find_def n = Some d -> wf_msgb d m = true ->
+  exists bs, encode_def d m = Ok bs /\ decode_def d bs = Ok m.
+Proof. intros H Hw. apply roundtrip; [eapply def_rt; eassumption|exact Hw]. Qed.
